@@ -580,6 +580,14 @@ def rule_r7(chk, p, t):
     memo_rule(chk, p, t, "C14.R7", modules=("resonaate.physics.sensor_utils", "resonaate.physics.maths", "resonaate.physics.measurements"), floor=30, what="the visibility helper modules (physics.sensor_utils, physics.maths, physics.measurements)")
 
 
+def rule_r8(chk, p, t):
+    """The visibility predicates are only as good as their use: every sensor class applies each of them, with the
+    documented sense, before it reports a target visible (shared instances of C02.R2 - R4)."""
+    from rules import C02
+
+    C02.rule_isvisible(chk, p, t, rids=("C14.R8", "C14.R9", "C14.R10"))
+
+
 def run(chk, p, t):
     chk.explanation = (
         "Static decision of structural necessary conditions of C14: (R1) azimuth differences are wrapped before use; "
@@ -590,7 +598,7 @@ def run(chk, p, t):
         "exactness as values, symmetry of lineOfSight as numbers, the Sun-fraction range."
     )
     chk.assumptions += ["getAzimuth returns an angle in [0, 2pi) (wrapAngle2Pi), getElevation in [-pi/2, pi/2]", "mask limits lie in [0, 2pi] (enforced by the az_mask setter)"]
-    for fn in (rule_r1, rule_r2, rule_r3, rule_r4, rule_r5, rule_r6, rule_r7):
+    for fn in (rule_r1, rule_r2, rule_r3, rule_r4, rule_r5, rule_r6, rule_r7, rule_r8):
         rid = "C14.R" + fn.__name__[-1]
         if not chk.wants(rid):
             continue
